@@ -64,6 +64,8 @@ type glFunc struct {
 	// Extra: Lean arguments that are not Go parameters (e.g. the record `P` of library functions); a
 	// translated caller passes the terms of the same names
 	Extra string
+	// Iter: iterator methods taking a callback (`r.Attrs(func(a slog.Attr) bool {…})`) -> the Lean list iterated over
+	Iter map[string]string
 }
 
 type glUnit struct {
@@ -899,6 +901,39 @@ func (t *glTr) stmt(ind int, s ast.Stmt) {
 		if !ok {
 			t.die(s, "expression statement")
 		}
+		if seq, ok := t.fn.Iter[glText(call.Fun)]; ok && len(call.Args) == 1 {
+			// r.Attrs(func(a T) bool { …; return true })  is  for _, a := range <seq> { … }
+			// (`return true` = next element, `return false` = stop)
+			fl, ok := call.Args[0].(*ast.FuncLit)
+			if !ok || len(fl.Type.Params.List) != 1 || len(fl.Type.Params.List[0].Names) != 1 {
+				t.die(s, "iterator callback")
+			}
+			body := &ast.BlockStmt{}
+			for k, st := range fl.Body.List {
+				if rs, ok := st.(*ast.ReturnStmt); ok && len(rs.Results) == 1 {
+					if glText(rs.Results[0]) == "true" && k == len(fl.Body.List)-1 {
+						continue // falling off the end of the body is the same
+					}
+					switch glText(rs.Results[0]) {
+					case "true":
+						body.List = append(body.List, &ast.BranchStmt{Tok: token.CONTINUE, TokPos: rs.Pos()})
+						continue
+					case "false":
+						body.List = append(body.List, &ast.BranchStmt{Tok: token.BREAK, TokPos: rs.Pos()})
+						continue
+					}
+				}
+				ast.Inspect(st, func(n ast.Node) bool {
+					if _, ok := n.(*ast.ReturnStmt); ok {
+						t.die(n, "return inside an iterator callback (only a final `return true/false` is understood)")
+					}
+					return true
+				})
+				body.List = append(body.List, st)
+			}
+			t.rangeStmt(ind, &ast.RangeStmt{For: x.Pos(), Key: ast.NewIdent("_"), Value: fl.Type.Params.List[0].Names[0], Tok: token.DEFINE, X: ast.NewIdent(seq), Body: body})
+			return
+		}
 		t.callStmt(ind, call)
 	case *ast.ReturnStmt:
 		cs, ps := t.exprs(x.Results)
@@ -924,24 +959,18 @@ func (t *glTr) stmt(ind int, s ast.Stmt) {
 					var outs, args []string
 					for i, a := range call.Args {
 						if i < len(sig.ptr) && sig.ptr[i] {
-							id, ok := a.(*ast.Ident)
-							if !ok || !t.fn.Ptr[id.Name] {
-								t.die(call, "pointer argument must be a pointer parameter")
+							n := t.ptrArg(a)
+							if n == "" {
+								t.die(call, "pointer argument must be a pointer parameter, &local or a threaded &field")
 							}
-							outs = append(outs, t.nm(id.Name))
-							args = append(args, t.nm(id.Name))
+							outs = append(outs, n)
+							args = append(args, n)
 							continue
 						}
 						c, p := t.expr(a)
 						args = append(args, glBind(c, p))
 					}
-					if t.fn.Rec && glText(call.Fun) == t.fn.Name {
-						pre := []string{"fuel__"}
-						if t.fn.Extra != "" {
-							pre = append(pre, t.fn.Extra)
-						}
-						args = append(pre, args...)
-					}
+					args = append(t.recPrefix(glText(call.Fun), sig), args...)
 					v := t.fresh()
 					t.line(ind, "let %s ← %s %s", v, sig.callee(), strings.Join(args, " "))
 					for i, o := range outs {
@@ -1333,6 +1362,35 @@ func (t *glTr) assign(ind int, x *ast.AssignStmt) {
 	}
 }
 
+// ptrArg: the Lean variable behind a pointer argument: a pointer parameter `buf`, `&local`, or
+// `&x.field` where the field is a threaded variable (Ptr + Env)
+func (t *glTr) ptrArg(a ast.Expr) string {
+	if id, ok := a.(*ast.Ident); ok && t.fn.Ptr[id.Name] {
+		return t.nm(id.Name)
+	}
+	if u, ok := a.(*ast.UnaryExpr); ok && u.Op == token.AND {
+		if id, ok := u.X.(*ast.Ident); ok && t.scope[id.Name] {
+			return t.nm(id.Name)
+		}
+		if n := t.lhsName(u.X); n != "" {
+			return t.nm(n)
+		}
+	}
+	return ""
+}
+
+// recPrefix: leading arguments of a call to a recursive (fuel-taking) function
+func (t *glTr) recPrefix(name string, sig *glSig) []string {
+	if !sig.rec {
+		return nil
+	}
+	pre := []string{"fuel__"}
+	if sig.extra != "" {
+		pre = append(pre, sig.extra)
+	}
+	return pre
+}
+
 // callStmt: a call whose results are dropped; pointer parameters are threaded.
 func (t *glTr) callStmt(ind int, call *ast.CallExpr) {
 	name := glText(call.Fun)
@@ -1361,19 +1419,12 @@ func (t *glTr) callStmt(ind int, call *ast.CallExpr) {
 	args := []string{}
 	for i, a := range call.Args {
 		if i < len(sig.ptr) && sig.ptr[i] {
-			n := ""
-			if id, ok := a.(*ast.Ident); ok && t.fn.Ptr[id.Name] {
-				n = id.Name
-			} else if u, ok := a.(*ast.UnaryExpr); ok && u.Op == token.AND {
-				if id, ok := u.X.(*ast.Ident); ok && t.scope[id.Name] {
-					n = id.Name
-				}
-			}
+			n := t.ptrArg(a)
 			if n == "" {
-				t.die(call, "pointer argument must be a pointer parameter or &local")
+				t.die(call, "pointer argument must be a pointer parameter, &local or a threaded &field")
 			}
-			outs = append(outs, t.nm(n))
-			args = append(args, t.nm(n))
+			outs = append(outs, n)
+			args = append(args, n)
 			continue
 		}
 		c, p := t.expr(a)
@@ -1382,13 +1433,7 @@ func (t *glTr) callStmt(ind int, call *ast.CallExpr) {
 	if len(outs) == 0 || sig.nres != 0 {
 		t.die(call, "call statement %s: unsupported shape", name)
 	}
-	if t.fn.Rec && name == t.fn.Name {
-		pre := []string{"fuel__"}
-		if t.fn.Extra != "" {
-			pre = append(pre, t.fn.Extra)
-		}
-		args = append(pre, args...)
-	}
+	args = append(t.recPrefix(name, sig), args...)
 	if len(outs) == 1 {
 		t.line(ind, "%s ← %s %s", outs[0], sig.callee(), strings.Join(args, " "))
 	} else {
@@ -1493,7 +1538,11 @@ func (t *glTr) assigned(nodes ...ast.Node) []string {
 							if id, ok := a.(*ast.Ident); ok {
 								add(id.Name)
 							} else if u, ok := a.(*ast.UnaryExpr); ok {
-								add(glText(u.X))
+								if n := t.lhsName(u.X); n != "" {
+									add(n)
+								} else {
+									add(glText(u.X))
+								}
 							}
 						}
 					}
@@ -2091,6 +2140,50 @@ func extractGoLean() {
 				Tuples: map[string][]string{"a.Value.Kind()": {"(Glb.Go.LibJson.isGroup a)"}, "a.Value.Group()": {"(Glb.Go.LibJson.groupOf a)"}},
 				Skip:    []string{"a.Value = a.Value.Resolve()"},
 				Rewrite: map[string]string{"appendJsonValue(buf, a.Value, colorful)": "buf := buf ++ Glb.Go.LibJson.valueBytes a"}},
+		},
+	})
+	// TrJsonHandler (C01): the three Handler methods at the level of VALUES (what is written, which state
+	// the derived handler has). clone()/slices.Clip, the buffer pool and the lock are the business of the
+	// aliasing model (C03) and the protocol model (C02): here h2's fields are threaded variables that start
+	// as h's, `buf` starts empty, and the final Write is left out.
+	jh := map[string]string{
+		"h2.preformatted": "pre", "h2.addSep": "addSep", "h2.nOpenGroups": "nOpen", "h2.Options.colorful": "false", "h2": "()", "h": "()",
+		"h.preformatted": "pre", "h.addSep": "addSep", "h.nOpenGroups": "nOpen", "h.Options.colorful": "false", "h.Options.addSource": "addSource",
+		"slog.TimeKey": "Glb.JsonHandler.kTime", "slog.LevelKey": "Glb.JsonHandler.kLevel", "slog.SourceKey": "Glb.JsonHandler.kSource", "slog.MessageKey": "Glb.JsonHandler.kMsg",
+		"r.Level": "level", "r.Message": "msg", "err": "()", "attrs": "attrs",
+	}
+	jhPtr := map[string]bool{"h2.preformatted": true, "h2.addSep": true, "h2.nOpenGroups": true, "range-elems": true}
+	hArgs := "(pre : Bytes) (nOpen : Int) (addSep : Bool)"
+	hRet := "(Bytes × Int × Bool × Unit)"
+	glTranslate(glUnit{
+		Module: "TrJsonHandler", NS: "Glb.Tr.Logger",
+		Imports: []string{"Glb.Go.LibJson", "Glb.Generated.TrJson", "Glb.Generated.TrJsonAttr"},
+		Funcs: []glFunc{
+			{File: "logger/json_handler.go", Recv: "JsonHandler", Name: "WithGroup", Lean: "Json_WithGroup", Args: hArgs + " (name : Bytes)", Ret: hRet,
+				Env: jh, Ptr: jhPtr, Thread: []string{"pre", "nOpen", "addSep"}, Skip: []string{"h2 := h.clone()"}},
+			{File: "logger/json_handler.go", Recv: "JsonHandler", Name: "WithAttrs", Lean: "Json_WithAttrs", Args: "(fuel__ : Nat) " + hArgs + " (attrs : List Glb.JsonHandler.Attr)", Ret: hRet,
+				Env: jh, Ptr: jhPtr, Thread: []string{"pre", "nOpen", "addSep"}, Skip: []string{"h2 := h.clone()"}},
+			{File: "logger/json_handler.go", Recv: "JsonHandler", Name: "Handle", Lean: "Json_Handle",
+				Args: "(fuel__ : Nat) (buf : Bytes) (addSource : Bool) (pre : Bytes) (nOpen : Int) (addSep0 : Bool) (time : Bytes) (level : Int) (file : Bytes) (line : Int) (msg : Bytes) (attrs : List Glb.JsonHandler.Attr)",
+				Ret: "(Bytes × Unit)",
+				Env: func() map[string]string {
+					m := map[string]string{}
+					for k, v := range jh {
+						m[k] = v
+					}
+					m["h.addSep"] = "addSep0"
+					return m
+				}(),
+				Ptr: map[string]bool{"buf": true, "range-elems": true}, Thread: []string{"buf"},
+				Iter:   map[string]string{"r.Attrs": "attrs"},
+				Tuples: map[string][]string{"r.NumAttrs()": {"(Glb.Go.len attrs)"}},
+				Skip:   []string{"defer freeBuffer(buf)", "h.outMu.Lock()", "defer h.outMu.Unlock()"},
+				Rewrite: map[string]string{
+					"buf := newBuffer()": "pure ()",
+					"*buf = r.Time.AppendFormat(*buf, time.RFC3339Nano)": "buf := buf ++ time",
+					"appendJsonSource(buf, r.PC)":                         "buf ← Glb.Tr.Logger.appendJsonSource buf file line",
+					"_, err := h.out.Write(*buf)":                         "pure ()",
+				}},
 		},
 	})
 	glTranslate(glUnit{
